@@ -205,7 +205,7 @@ def correspondence(ctx, gen_ok):
     import skfem
     from skfem.generic_utils import OrientedBoundary
     rng = np_seed(ctx, 17)
-    enc_cases, dec_cases, coh_cases, sub_cases = [], [], [], []
+    enc_cases, dec_cases, coh_cases, sub_cases, dict_cases = [], [], [], [], []
     nmesh = ctx.n(28, 120)
     for k in range(nmesh):
         name = FIRST[k % 4]
@@ -268,6 +268,25 @@ def correspondence(ctx, gen_ok):
         ind = np.asarray(ms._encode_cell_data()['skfem:s:s'][0])
         _, sd = ms._decode_cell_data({'skfem:s:s': [ind]})
         sub_cases.append((f'({cnat(nt)}, {cnats(s)})', f'({cNs(ind)}, {cnats(np.asarray(sd["s"]))})', ('sub', name, kk)))
+    # to_dict / from_dict at the level of the tag dictionaries
+    def cstr(x):
+        assert x.isidentifier()
+        return f'"{x}"%string'
+    for k in range(ctx.n(12, 40)):
+        m = rand_mesh1(FIRST[k % 4], rng, size=[2, 2] if k % 4 < 2 else [2, 2, 2])
+        _, bnd = rand_tags(m, rng)
+        m = m.with_boundaries(bnd)
+        d = m.to_dict()
+        M = type(m).from_dict(dict(d))
+
+        def tagterm(b):
+            o = getattr(b, 'ori', None)
+            return f'({cnats(np.asarray(b))}, {"None" if o is None else "Some " + cbools(np.asarray(o))})'
+        inp = clist([f'({cstr(n)}, {tagterm(b)})' for n, b in m.boundaries.items()])
+        out = ('(' + clist([f'({cstr(n)}, {cnats(v)})' for n, v in d['boundaries'].items()]) + ', '
+               + clist([f'({cstr(n)}, {cbools(v)})' for n, v in d.get('orientations', {}).items()]) + ', '
+               + clist([f'({cstr(n)}, {tagterm(b)})' for n, b in M.boundaries.items()]) + ')')
+        dict_cases.append((inp, out, ('dict', len(bnd), sum(getattr(b, 'ori', None) is not None for b in bnd.values()))))
     if not gen_ok:
         return
     imp = ('Require Import Model.C17_TagCodec Gen.C17Gen.\nFrom Coq Require Import List Arith Bool ZArith NArith.')
@@ -280,6 +299,11 @@ Definition dec (c : nat * nat * mat nat * mat Z * list N) : list nat * list bool
   let '(ns, nt, t2f, f2t, data) := c in gen_decode_boundary ns nt t2f f2t data.
 Definition coh (c : nat * nat * mat nat * mat Z * list bool * list nat) : bool :=
   let '(ns, nt, t2f, f2t, ori, b) := c in coherent_tagb ns nt t2f f2t ori b.
+Definition tag_eqb (a b : tagval) : bool := nats_eqb (fst a) (fst b) && option_eqb bools_eqb (snd a) (snd b).
+Definition assoc_eqb {V} (e : V -> V -> bool) := list_eqb (fun (a b : String.string * V) => String.eqb (fst a) (fst b) && e (snd a) (snd b)).
+Definition dict_out_eqb (a b : list (String.string * list nat) * list (String.string * list bool) * bdict) : bool :=
+  assoc_eqb nats_eqb (fst (fst a)) (fst (fst b)) && assoc_eqb bools_eqb (snd (fst a)) (snd (fst b)) && assoc_eqb tag_eqb (snd a) (snd b).
+Definition dict_rt (b : bdict) := (gen_dict_boundaries b, gen_dict_orientations b, gen_dict_load (gen_dict_boundaries b) (gen_dict_orientations b)).
 Definition sub (c : nat * list nat) : list N * list nat :=
   let '(nt, s) := c in (gen_encode_subdomain nt s, gen_decode_subdomain (gen_encode_subdomain nt s)).
 '''
@@ -291,6 +315,8 @@ Definition sub (c : nat * list nat) : list N * list nat :=
                          nontrivial=lambda r: r[2] >= 2),
         lambda: ctx.corr('subdomain_codec', imp, 'sub', '(pair_eqb Ns_eqb nats_eqb)', sub_cases, defs=defs,
                          nontrivial=lambda r: r[2] >= 1),
+        lambda: ctx.corr('to_dict_from_dict', imp + '\nFrom Coq Require String.', 'dict_rt', 'dict_out_eqb', dict_cases,
+                         defs='Import String.\n' + defs, nontrivial=lambda r: r[2] >= 1),
     ]
     from concurrent.futures import ThreadPoolExecutor
     with ThreadPoolExecutor(len(jobs)) as ex:          # the coqc runs are independent processes
